@@ -625,7 +625,7 @@ static void run_case(Case &c)
         auto fails = [&](const std::vector<Op> &h) -> bool {
             Ctx y; y.chips = x.chips; y.emu = x.emu; y.rate = x.rate;
             keys.clear(); g_capture_keys = &keys; int saved = g_w.violations_in_case;
-            bool ok = open_instance(c, y, mode == "c06");
+            bool ok = open_instance(c, y, mode != "c04");
             if(ok) { if(arp) { y.arpeggio = true; opn2_setAutoArpeggio(y.d, 1); } run_history(c, y, h, mode); opn2_close(y.d); }
             g_capture_keys = NULL; g_w.violations_in_case = saved;
             if(target.empty()) { if(!keys.empty()) target = keys[0]; return !keys.empty(); }
@@ -667,13 +667,13 @@ static void run_case(Case &c)
     else if(recycle)
     {
         recycled = new Ctx(); recycled->chips = x.chips; recycled->emu = x.emu; recycled->rate = x.rate;
-        if(!open_instance(c, *recycled, false)) { delete recycled; recycled = NULL; return; }
+        if(!open_instance(c, *recycled, mode == "c05")) { delete recycled; recycled = NULL; return; }
         run_history(c, *recycled, ops, mode);
         if(g_w.violations_in_case) { API("opn2_close", opn2_close(recycled->d)); delete recycled; recycled = NULL; }
     }
     else
     {
-        if(!open_instance(c, x, mode == "c06")) return;
+        if(!open_instance(c, x, mode != "c04")) return;
         if(arp) { x.arpeggio = true; opn2_setAutoArpeggio(x.d, 1); }
         run_history(c, x, ops, mode);
         API("opn2_close", opn2_close(x.d));
